@@ -794,9 +794,112 @@ def check_tls_config(ctx, cases):
     return classes, list(zip(cases, impl))
 
 
+# ------------------------------------------------------------------------------------------------ (e) building an address filter through the C ABI
+FSEQ_PEERS = ['127.0.0.1', '127.0.0.2', '127.0.0.3']
+
+
+def gen_fseq_cases(ctx):
+    creates = ['127.0.0.1', '127.0.0.2', '127.0.0.*', '*.*.*.*', '127.*.0.2', 'bad', '', '1.2.3', '256.0.0.1', '127.0.0.01', '+127.0.0.1', '::1', '::ffff:127.0.0.1']
+    addsets = [[], ['127.0.0.2'], ['127.0.0.2', '127.0.0.3'], ['bad'], ['127.0.0.3', '*.*.*.*', '127.0.0.1'], ['::1', '127.0.0.3'], ['127.0.0.02']]
+    cases = []
+    for k, c in enumerate(creates):
+        for a in [addsets[0], addsets[1 + (k + ctx.seed) % 6], addsets[1 + (k + ctx.seed + 3) % 6]]:
+            cases.append((c, list(a)))
+    cases += [('127.0.0.1', ['127.0.0.2']), ('127.0.0.3', ['127.0.0.1', '127.0.0.2'])]
+    return [f'fseq {hx(c)} {",".join(hx(x) for x in a) or "-"}' for c, a in cases]
+
+
+def fseq_spec(create, adds):
+    """independent reading: create = IP address (one-element set, extendable) else wildcard else InvalidIpAddress;
+    add = only a set can be extended; a failed add leaves the filter as it was"""
+    from checks import c16
+    lit = c16.ip_literal(create)
+    if lit is not None:
+        flt = ('set', [lit])
+    elif c16.spec_parse(create) != 'ERR':
+        flt = ('wc', c16.spec_parse(create))
+    else:
+        return 'InvalidIpAddress', [], None
+    rcs = []
+    for a in adds:
+        al = c16.ip_literal(a)
+        if al is not None and flt[0] == 'set':
+            flt[1].append(al)
+            rcs.append('Ok')
+        else:
+            rcs.append('InvalidIpAddress')
+    return 'Ok', rcs, flt
+
+
+FSEQ_PRE = '''Local Open Scope string_scope.
+Definition no_v6 (_ : str) : option ip := None.
+Definition run_fseq (x : list N * list (list N) * list ip) : string :=
+  let '(s, adds, peers) := x in
+  match ffi_filter_build no_v6 s adds with
+  | None => "create=InvalidIpAddress;add=-;ffi=-"
+  | Some (f, oks) => "create=Ok;add=" ++ match oks with [] => "-" | _ => show_list (fun b : bool => if b then "Ok" else "InvalidIpAddress") "," oks end
+                     ++ ";ffi=" ++ show_list (fun p => if matches f p then "S" else "C") "," peers
+  end.'''
+
+
+def check_filter_build(ctx, cases):
+    import ipaddress
+    from checks import c16
+    lines, specs = [], []
+    for c in cases:
+        _, ch, ah = c.split()[:3]
+        create = bytes.fromhex(ch).decode() if ch != '-' else ''
+        adds = [bytes.fromhex(x).decode() for x in ah.split(',')] if ah != '-' else []
+        rc, rcs, flt = fseq_spec(create, adds)
+        if flt is None:
+            rust, want_peers = 'ERR', '-'
+        else:
+            rust = ('set=' + '+'.join(str(x) for x in flt[1])) if flt[0] == 'set' else 'wc=' + flt[1]
+            want_peers = ','.join('S' if c16.spec_admits(rust, ipaddress.ip_address(p)) else 'C' for p in FSEQ_PEERS)
+        specs.append((create, adds, rc, rcs, rust, want_peers))
+        lines.append(f'fseq {ch} {ah} {rust} {",".join(FSEQ_PEERS)}')
+    impl = ctx.harness('filter_live', lines, args=[vlib.REPO], timeout=600)
+    terms = []
+    for create, adds, *_ in specs:
+        terms.append(f'({vlib.coq_N_list(create.encode())}, [{"; ".join(vlib.coq_N_list(a.encode()) for a in adds)}], [{"; ".join(c16.coq_ip(ipaddress.ip_address(p)) for p in FSEQ_PEERS)}])')
+    model = model_eval(ctx, ['Base.Show', 'Gen.FfiTables', 'Model.Filter', 'Spec.FfiFilterSpec', 'Model.FfiFilter'], 'run_fseq', terms,
+                       case_type='list N * list (list N) * list ip', preamble=FSEQ_PRE, per_shard=60)
+    bad = 0
+    classes = {}
+    for c, i, (create, adds, rc, rcs, rust, want_peers), mo in zip(cases, impl, specs, model):
+        want = f'create={rc};add={",".join(rcs) or "-"};ffi={want_peers}'
+        m = re.fullmatch(r'(create=\S+?;add=\S+?;ffi=\S+?);rust=(\S+)', i)
+        kind = 'invalid' if rust == 'ERR' else rust.split('=')[0]
+        classes[f'filter-build.{kind}.{"with-add" if adds else "create-only"}'] = classes.get(f'filter-build.{kind}.{"with-add" if adds else "create-only"}', 0) + 1
+        calls = f'rodbus_address_filter_create({create!r})' + ''.join(f', rodbus_address_filter_add({a!r})' for a in adds)
+        if not m or 'FAIL' in i:
+            bad += 1
+            ctx.oblige('filter-build-scenario-ran', False, f'{c}: {i}')
+        elif m.group(2) != want_peers:
+            bad += 1
+            ctx.violation('rust-api-unexpected.filter', f'{c}: the Rust API server with filter {rust} answered {m.group(2)}, expected {want_peers}', {'cases': [['fseq', c]], 'impl': i}, no_failing_input=True)
+        elif m.group(1) != want:
+            bad += 1
+            if bad <= 4:
+                g = dict(x.split('=', 1) for x in m.group(1).split(';'))
+                if g['create'] != rc:
+                    what = f'create returned {g["create"]} (the Rust API way: {rc})'
+                elif g['add'] != (','.join(rcs) or '-'):
+                    what = f'the add calls returned {g["add"]}; extending the Rust API filter {"cannot fail" if all(x == "Ok" for x in rcs) else "gives " + ",".join(rcs)}'
+                else:
+                    what = f'peers {",".join(FSEQ_PEERS)} are answered {g["ffi"]} by the C-ABI server, {want_peers} by the Rust API server with {rust}'
+                ctx.violation('filter-built-through-c-abi-differs', f'{calls}: {what}', {'cases': [['fseq', c]], 'impl': i, 'spec': want + ';rust=' + want_peers, 'model': mo})
+        elif mo is not None and ':' not in create + ''.join(adds) and mo != want:
+            bad += 1
+            if bad <= 4:
+                ctx.violation('filter-build-model-differs-from-impl', f'{calls}: model {mo}, implementation and Spec {want}', {'cases': [['fseq', c]], 'impl': i, 'spec': want, 'model': mo}, no_failing_input=True)
+    ctx.oblige('correspondence:filter-built-through-c-abi', bad == 0, f'{bad} disagreements on {len(cases)} call sequences')
+    return classes, list(zip(cases, impl))
+
+
 def run(ctx):
     ctx.translate(['FfiTables.v'])
-    models_ok = ctx.build_models(['Base.Show', 'Model.Ffi', 'Spec.FfiSpec', 'Model.FfiWire', 'Model.FfiTls'])
+    models_ok = ctx.build_models(['Base.Show', 'Model.Ffi', 'Spec.FfiSpec', 'Model.FfiWire', 'Model.FfiTls', 'Model.FfiFilter'])
     ctx.prove()
     if ctx.tier == 'thorough':
         ctx.coqchk()
@@ -809,8 +912,10 @@ def run(ctx):
         client_cases = [c[1] for c in ctx.replay['cases'] if c[0] == 'client']
         authz_cases = [c[1] for c in ctx.replay['cases'] if c[0] == 'authz']
         tls_cases = [c[1] for c in ctx.replay['cases'] if c[0] == 'tlscfg']
+        fseq_cases = [c[1] for c in ctx.replay['cases'] if c[0] == 'fseq']
     else:
         tls_cases = gen_tls_cases()
+        fseq_cases = gen_fseq_cases(ctx)
         server_cases = gen_server_cases(ctx, thorough)
         client_cases = gen_client_cases(ctx, thorough)
         authz_cases = gen_authz_cases(ctx, thorough)
@@ -826,6 +931,9 @@ def run(ctx):
     tc, t_samples = {}, []
     if tls_cases:
         tc, t_samples = check_tls_config(ctx, tls_cases)
+    fc_ = {}
+    if fseq_cases:
+        fc_, _ = check_filter_build(ctx, fseq_cases)
     n_sys, sys_classes, sys_samples = p5_system.check_system(ctx, 'write', 1500 if ctx.quick() else 12000, 'writes')
     if not ctx.replay:
         need = ['exception-standard', 'exception-raw', 'timeout', 'bad-response', 'bad-frame', 'io', 'ok', 'no-connection', 'shutdown', 'shutdown-queued', 'queue-full', 'states']
@@ -833,11 +941,11 @@ def run(ctx):
         if missing:
             ctx.oblige('generator-reaches-expected-classes', False, str(missing))
     ctx.coverage.update({
-        'evaluations': len(server_cases) + ncalls + len(authz_cases) + len(tls_cases) + n_sys,
+        'evaluations': len(server_cases) + ncalls + len(authz_cases) + len(tls_cases) + len(fseq_cases) + n_sys,
         'distinct_nontrivial': len(set(server_cases)) + len(set(client_cases)) + len(set(authz_cases)),
         'rule': 'server half: one case = (write kind, callback set/unset, WriteResult success/exception/raw, address, values) run against a live C-ABI server and a live Rust API server; client half: one scenario = (scripted peer behaviour selected by the start address: exception code 0..255 / silent / malformed / bad MBAP / close / correct reply; or no connection / runtime shutdown / queue overfill / parameter validation) x one of the eight requests, run through the C ABI and through the Rust API; TLS+authz: (server api, client api, request, handler decision allow/deny/unset, unit, range) over a real TLS session with the role-bearing client certificate; every case makes a real request, so all are non-trivial; distinct by case line',
         'samples': [list(x) for x in s_samples[:3]] + [list(x) for x in c_samples[:2]] + [list(x) for x in c_samples[-6:-3]] + [list(x) for x in a_samples[:2]],
-        'input_classes': {'server': sc, 'client': cc, 'tls_authz': ac, 'tls_config': tc, 'system_wire_replies': sys_classes},
+        'input_classes': {'server': sc, 'client': cc, 'tls_authz': ac, 'tls_config': tc, 'filter_build': fc_, 'system_wire_replies': sys_classes},
         'system_wire_scenarios': n_sys,
         'exhaustive': False,
         'c_abi_client_calls': ncalls,
